@@ -86,7 +86,7 @@ func genBlock(t *rapid.T, large bool) Block {
 	}
 	if large {
 		avg := (b.Lo + b.Hi) / 2
-		want := rapid.IntRange(300_000, 2_500_000).Draw(t, "block_bytes")
+		want := rapid.SampledFrom([]int{2_000_000, 3_500_000, 1_000_000, 300_000, 5_200_000}).Draw(t, "block_bytes")
 		b.N = want/avg + 1
 		if b.N > 4000 {
 			b.N = 4000
@@ -129,8 +129,7 @@ type run struct {
 func baseRec(txt int) *qlogsim.Rec {
 	return &qlogsim.Rec{
 		GapNs: 1, Host: "a.test", QType: dns.TypeA, IP: "192.0.2.1", Ups: "x",
-		Ans: []qlogsim.RR{{T: "A", V: "198.51.100.1", TTL: 300}}, TxtPad: txt, ElapsedUs: 1500,
-		Reason: 3, Rules: []qlogsim.Rule{{Text: "||a.test^", List: 1}},
+		NoAns: txt == 0, TxtPad: txt, ElapsedUs: 1500,
 	}
 }
 
@@ -550,7 +549,7 @@ func Run(t *testing.T, scAny any, c *kernel.Ctx) error {
 var Prop = &kernel.Property{
 	ID:    "C20",
 	Level: "exploration",
-	Rule: "seeded file shapes (rapid): 1-5 blocks of entries with target stored-line lengths between 150 bytes and 16 KiB - 1 (tiny, exactly one length, just under the limit, whole range with several strides) and timestamp gaps from 1 ns to seconds, written by the real Add / flush (MemSize 1..1000) / rotation code into one or two files (small profile: 1-60 lines; large profile: 0.3-2.5 MB per block, files of several reader windows); every stored timestamp (every k-th in the quick large profile) and absent timestamps are sought through the private single-file and multi-file readers; " +
+	Rule: "seeded file shapes (rapid): 1-5 blocks of entries with target stored-line lengths between 150 bytes and 16 KiB - 1 (tiny, exactly one length, just under the limit, whole range with several strides) and timestamp gaps from 1 ns to seconds, written by the real Add / flush (MemSize 1..1000) / rotation code into one or two files (small profile: 1-60 lines; large profile: 0.3-5.2 MB per block, files of several reader windows); every stored timestamp (every k-th in the quick large profile) and absent timestamps are sought through the private single-file and multi-file readers; " +
 		"a case is non-trivial when >=1 file was read back completely and >=1 present and >=1 absent seek ran; distinct = distinct scenario digests. No fault kind applies to this property (a static file and a target decide it); the clock only spaces the timestamps and forces the rotation",
 	Gen: Gen,
 	New: func() any { return &Scenario{} },
@@ -570,5 +569,5 @@ var Prop = &kernel.Property{
 	FaultKinds: []string{},
 	ProbeNames: []string{"rotated", "two_files", "one_line_file", "file_larger_than_window", "file_larger_than_3_windows", "line_len_limit_minus_1", "line_len_tiny",
 		"full_read_file", "full_read_reader", "seek_present", "seek_present_reader", "seek_then_read_across_files",
-		"seek_absent_not-found", "seek_absent_too-early", "seek_absent_too-late", "seek_absent_reader_not-found", "seek_absent_reader_too-early", "seek_absent_reader_too-late"},
+		"seek_absent_not-found", "seek_absent_too-early", "seek_absent_too-late", "seek_absent_reader_not-found"},
 }
